@@ -183,12 +183,18 @@ def encode(f, A, B):
                 die("guarded add")
             if mn == "addq":
                 full = z3.ZeroExt(1, M.r[d]) + z3.ZeroExt(1, M.r[s])
+                a_, b_ = M.r[d], M.r[s]
                 M.r[d] = z3.Extract(63, 0, full)
                 M.CF = z3.Extract(64, 64, full) == 1
+                sa, sb, sr = z3.Extract(63, 63, a_), z3.Extract(63, 63, b_), z3.Extract(63, 63, M.r[d])
+                M.OF = z3.And(sa == sb, sr != sa)  # signed overflow
             else:
                 full = z3.ZeroExt(1, z3.Extract(31, 0, M.r[d])) + z3.ZeroExt(1, z3.Extract(31, 0, M.r[s]))
+                a_, b_ = z3.Extract(31, 0, M.r[d]), z3.Extract(31, 0, M.r[s])
                 M.r[d] = z3.ZeroExt(32, z3.Extract(31, 0, full))
                 M.CF = z3.Extract(32, 32, full) == 1
+                sa, sb, sr = z3.Extract(31, 31, a_), z3.Extract(31, 31, b_), z3.Extract(31, 31, M.r[d])
+                M.OF = z3.And(sa == sb, sr != sa)  # signed overflow
         elif mn in ("seto", "setc"):
             d, _ = operand(args[0])
             fl = M.OF if mn == "seto" else M.CF
